@@ -219,7 +219,7 @@ MANIFEST_TEXT = {
 
     "C02": {
         "technique": "Lean 4 theorems (one-step equations of the rule loops, getError) + differential correspondence on whole error strings",
-        "text": "Theorems for every configuration, value tree (any depth and width), continuation and state: C02_walker_appends / C02_fields_append / C02_flat_rules_append (mutual structural induction) — every walker function only appends: what it writes never depends on, and never touches, what is already in the buffer; C02_fields_in_order, C02_elements_in_order, C02_rules_in_order — the output of a struct / collection / rule list is the output of the first field / element / item followed by the output of the rest (declaration, index and rule order); the rule-loop step equations (a built-in, registered, unknown or empty item contributes its own text and the loop continues — no early exit); C02_nil_iff and C02_no_trailing_separator for getError. Tie: streams walk and flat compare the WHOLE error string (modulo Go map order) of calls on synthesised struct types with the model.",
+        "text": "Theorems for every configuration, value tree (any depth and width), continuation and state: C02_walker_appends / C02_fields_append / C02_flat_rules_append (mutual structural induction) — every walker function only appends: what it writes never depends on, and never touches, what is already in the buffer; C02_fields_in_order, C02_elements_in_order, C02_rules_in_order — the output of a struct / collection / rule list is the output of the first field / element / item followed by the output of the rest (declaration, index and rule order); C02_flat_closed_form and C02_field_closed_form — the rule loops of Var/Map/Url and of struct fields in closed form: for the items r1…rn, in this order, exactly one contribution per item (its clause text or nothing, the visit of the nested object, its group registration), each independent of what was written before; the rule-loop step equations (a built-in, registered, unknown or empty item contributes its own text and the loop continues — no early exit); C02_nil_iff and C02_no_trailing_separator for getError. Tie: streams walk and flat compare the WHOLE error string (modulo Go map order) of calls on synthesised struct types with the model.",
         "note": "Trusted: Lean kernel; reflect transcription; correspondence bounds the model=code tie. 'Exactly one clause per violated instance' rests on each rule function writing at most one clause, which is read off the model (violClause) and checked per rule by correspondence.",
     },
     "C03": {
